@@ -506,6 +506,13 @@ SEED_EXPECT.update({
     'R6-C04a': ['C04'], 'R6-C05a': ['C05'], 'R6-C10a': ['C10'], 'R6-C11a': ['C11'], 'R6-C14a': ['C14'], 'R6-C15a': ['C15'], 'R6-C17a': ['C17'], 'R6-C18a': ['C18'],
 })
 
+# round 7 (8 sub-agents, one property each, rules untouched before the first run): 8 of 8 reported.  R7-C03a is an aliasing defect of a class-level table and
+# is reported by the shared-state rule (C13 / C20), R7-C08a by C09 / C13 / C20 (C08 answers ANALYSIS-ERROR: the conversion ladder is not recognised any more)
+SEED_EXPECT.update({
+    'R7-C01a': ['C01'], 'R7-C03a': ['C13', 'C20'], 'R7-C06a': ['C06', 'C11'], 'R7-C08a': ['C09', 'C13', 'C20'], 'R7-C09a': ['C09', 'C13', 'C20'],
+    'R7-C13a': ['C13', 'C14'], 'R7-C16a': ['C16', 'C05'], 'R7-C19a': ['C19', 'C15'],
+})
+
 
 def apply_patch_file(relpath):
     def edit(root):
